@@ -9,3 +9,15 @@ Open Scope string_scope. Open Scope list_scope.
 
 Lemma tie_products : P_OpenSSH = product_OpenSSH /\ P_Dropbear = product_DropbearSSH /\ P_LibSSH = product_LibSSH.
 Proof. repeat split; reflexivity. Qed.
+
+(* Algorithm.get_ssh_version as it reads now (T1c translation) is the reading of version tokens used by the availability filter *)
+Lemma rev_tl_rev {A} (l : list A) : rev (tl (rev l)) = removelast l.
+Proof.
+  induction l as [|a l IH] using rev_ind; [reflexivity|].
+  rewrite rev_app_distr. cbn [rev app tl]. rewrite rev_involutive, removelast_last. reflexivity.
+Qed.
+Lemma tie_get_ssh_version : forall v, get_ssh_version v = src_get_ssh_version v.
+Proof.
+  intros v. unfold get_ssh_version, src_get_ssh_version, drop_last, Base.drop_last, str_drop, str_skip. cbv zeta.
+  rewrite rev_tl_rev. reflexivity.
+Qed.
